@@ -237,8 +237,7 @@ def run(repo, chk):
         for args in _it.product(*[examples(t) for t in stub.param_types]):
             bad = None
             n_feasible = 0
-            for pth in gf.paths('eval_func_call'):
-                ev = pth.events
+            for pth, ev in gf.inlined('eval_func_call'):
                 feasible = True
                 for idx, e in enumerate(ev):
                     if e.kind != 'cond' or e.node is None:
